@@ -19,7 +19,7 @@ Spec == Init /\ [][Next]_l
 
 SS == INSTANCE SharedState WITH DefaultCopied <- TRUE, RouteCopied <- TRUE, SettingsPerCall <- TRUE, VisitReadsSettings <- TRUE,
          RegistryInitOnly <- TRUE, TypeInfosLocked <- TRUE, PatternCacheAtomic <- TRUE, UriCacheLocked <- TRUE,
-         UniqueCheckerSet <- TRUE, WithWriters <- FALSE, MaxOps <- 1, prog <- <<>>, held <- <<>>
+         UniqueCheckerReadOnly <- TRUE, WithWriters <- FALSE, MaxOps <- 1, prog <- <<>>, held <- <<>>
 F == INSTANCE FindingsC15
 Range(f) == {f[i] : i \in DOMAIN f}
 OpOf(r) == <<r.op.e, r.op.f>>
